@@ -15,9 +15,9 @@ import BV.C02.Model
 namespace BV.C02.Driver
 open BV.C02
 
-def parseBlock? (t : String) : Option BlockAbs :=
-  match t.splitOn ":" with
-  | [i, p, w, f] => do
+/-- a block token `id:parent:work:flags[:pace]`; returns the block and whether a pace was given -/
+def parseBlock? (t : String) : Option (BlockAbs × Bool) :=
+  let go (i p w f : String) (paced : Bool) : Option (BlockAbs × Bool) := do
     let i ← i.toNat?
     let p ← p.toNat?
     let w ← w.toNat?
@@ -25,17 +25,22 @@ def parseBlock? (t : String) : Option BlockAbs :=
     match f.toList with
     | [a, b, c, d] =>
       if [a, b, c, d].all (fun x => x == '0' || x == '1') then
-        some ⟨i, p, w, a == '1', b == '1', c == '1', d == '1'⟩
+        some (⟨i, p, w, a == '1', b == '1', c == '1', d == '1'⟩, paced)
       else none
     | _ => none
+  match t.splitOn ":" with
+  | [i, p, w, f] => go i p w f false
+  | [i, p, w, f, pc] => if pc == "f" || pc == "n" || pc == "s" then go i p w f true else none
   | _ => none
 
 def parseTree? (t : String) : Option (List BlockAbs) :=
   if t == "-" then some [] else
   match (t.splitOn ",").mapM parseBlock? with
-  | some bs =>
-    -- ids must be unique
-    if (bs.map (·.hash)).eraseDups.length == bs.length then some bs else none
+  | some ps =>
+    let bs := ps.map (·.1)
+    -- ids must be unique; a pace on all blocks or on none
+    if (bs.map (·.hash)).eraseDups.length == bs.length &&
+       (ps.all (fun x => x.2) || ps.all (fun x => !x.2)) then some bs else none
   | none => none
 
 /-- every block's parent chain must reach genesis inside the tree (the harness cannot build it otherwise) -/
@@ -193,7 +198,7 @@ def prep (tree ops : String) : Option (List BlockAbs × List Op × List Hash) :=
   match parseTree? tree with
   | none => none
   | some bs =>
-    if !(bs.all (fun b => reaches bs (bs.length + 1) b.hash && b.work == 1)) then none else
+    if !(bs.all (fun b => reaches bs (bs.length + 1) b.hash)) then none else
     match parseOps? bs ops with
     | none => none
     | some os => some (bs, os, sortNat (bs.map (·.hash)))
